@@ -1,6 +1,7 @@
 /- Wire encodings for canonical substitutions / solutions and the driver ops for C17. -/
 import ChalkModel.Wire
 import ChalkModel.Aggregate
+import ChalkModel.WfAnswer
 
 namespace Chalk
 open Sexp
@@ -52,6 +53,10 @@ def natListOfSexp? : Sexp → Option (List Nat)
   | _ => none
 
 def opsAggregate : Sexp → Option Sexp
+  | .list [.atom "wf-answer", ks, nu, ans] => do
+      let ok := wfAnswer (← kindsOfSexp? ks) (← nu.nat?) (← canonArgsOfSexp? ans)
+      some (if ok then .list [.atom "accepted", .atom "wf-answer"]
+            else .list [.atom "rejected", .atom "ill_formed_answer", .list []])
   | .list [.atom "may-invalidate", n, c] => do
       some (resBoolToSexp (mayInvalidate (← Args.ofSexp? n) (← Args.ofSexp? c)))
   | .list [.atom "merge", us, g, a] => do
